@@ -99,6 +99,9 @@ pub struct Slot {
 
 #[derive(Clone, Debug)]
 pub struct Unit {
+    /// (definition slot, user slot, variant of the user that does not mention the definition);
+    /// variant 0 of the user does mention it.
+    pub toggles: Vec<(usize, usize, usize)>,
     pub name: &'static str,
     pub slots: Vec<Slot>,
     /// Variant 0 of every slot is error- and warning-free.
@@ -172,31 +175,31 @@ pub fn gen_history(rng: &mut Rng, g: &Generated, len: usize, cmds: &[&[&str]]) -
         args: rng.pick(cmds).iter().map(|s| s.to_string()).collect(),
     };
     steps.push(cmd(rng));
-    // Template "a dependency appears, then its target changes" (1 in 3): a user file that does
-    // not mention the definition yet is built, then starts to use it (the definition file is
-    // a cache hit in that build), then the definition changes. By convention the last variant
-    // of a user slot is the one without the reference and variant 0 has it.
-    if rng.chance(1, 3) {
-        let multi: Vec<&Unit> = g.units.iter().filter(|u| u.slots.len() >= 2).collect();
-        if !multi.is_empty() {
-            let u = *rng.pick(&multi);
-            let def = &u.slots[0];
-            let user = &u.slots[1 + rng.below(u.slots.len() - 1)];
-            if files.contains_key(def.path) && files.contains_key(user.path) {
-                let noref = user.variants[user.variants.len() - 1].to_string();
-                files.insert(user.path.to_string(), noref.clone());
-                steps.push(Step::Write { path: user.path.to_string(), content: noref });
-                steps.push(cmd(rng));
-                let with_ref = user.variants[0].to_string();
-                files.insert(user.path.to_string(), with_ref.clone());
-                steps.push(Step::Write { path: user.path.to_string(), content: with_ref });
-                steps.push(cmd(rng));
-                let v = 1 + rng.below(def.variants.len() - 1);
-                let content = def.variants[v].to_string();
-                files.insert(def.path.to_string(), content.clone());
-                steps.push(Step::Write { path: def.path.to_string(), content });
-                steps.push(cmd(rng));
-            }
+    // Template "a dependency appears, then its target changes" (1 in 2 when the project has a
+    // unit that supports it): a user file that does not mention the definition yet is built,
+    // then starts to use it (the definition file is a cache hit in that build), then the
+    // definition changes. Only building/checking commands are used inside the template.
+    let togglable: Vec<&Unit> = g.units.iter().filter(|u| !u.toggles.is_empty()).collect();
+    if !togglable.is_empty() && rng.chance(1, 2) {
+        let u = *rng.pick(&togglable);
+        let (d, us, nv) = *rng.pick(&u.toggles);
+        let (def, user) = (&u.slots[d], &u.slots[us]);
+        let bc = |rng: &mut Rng| Step::Cmd { args: vec![if rng.chance(1, 2) { "build".to_string() } else { "check".to_string() }] };
+        if files.contains_key(def.path) && files.contains_key(user.path) {
+            let noref = user.variants[nv].to_string();
+            files.insert(user.path.to_string(), noref.clone());
+            steps.push(Step::Write { path: user.path.to_string(), content: noref });
+            steps.push(bc(rng));
+            let with_ref = user.variants[0].to_string();
+            files.insert(user.path.to_string(), with_ref.clone());
+            steps.push(Step::Write { path: user.path.to_string(), content: with_ref });
+            steps.push(bc(rng));
+            let v = 1 + rng.below(def.variants.len() - 1);
+            let content = def.variants[v].to_string();
+            files.insert(def.path.to_string(), content.clone());
+            steps.push(Step::Write { path: def.path.to_string(), content });
+            steps.push(Step::Cmd { args: vec!["check".to_string()] });
+            steps.push(Step::Cmd { args: vec!["build".to_string()] });
         }
     }
     let mut toml = g.project.toml.clone();
